@@ -23,7 +23,7 @@ func main() {
 	runner.Main(runner.Config{
 		ID:    "C14",
 		Level: "model_checking",
-		Rule:  "scaled builds (window/threshold 8/2 and 4/1, verified behaviourally at run time): 'binary' = every (old,new) over {0,1} up to a length bound; 'pattern' = every equality pattern between old and new for every new length up to ~1.5 (8/2) or 3 (4/1) windows and every old length in {0..n, n+1, n+window+1}, new bytes position-dependent; each pair x every way to cut new into <=3 writes (cut positions 0..n, repeated positions = empty writes) x every tagging of the cuts with {nothing, Flush, Flush+resume in a new session from ReadOffset/OverlayOffset, the same after the abandoned session went on writing stale bytes}. Full scale (window/threshold detected behaviourally): old/new built from <=3-4 alternating equal/differing runs with lengths in {1,T-1,T,T+1,2T,W-T,W,W+1}, tails only in old or only in new, written in chunks of {1,4KiB,32KiB,W,W+1,everything} with flush/resume marks at every write boundary (singles, pairs for the window-sized chunks), partly through real files exactly as the overlay bowl does. Oracle: OverlayPatchContext.Patch onto a copy of old + truncate at the final position == new; an independent decoder/applier of the overlay stream agrees; ReadOffset/OverlayOffset after Flush equal the bytes consumed/produced. Non-trivial = the overlay contains both a SKIP and a FRESH op of non-zero length.",
+		Rule:  "scaled builds (window/threshold 8/2 and 4/1, verified behaviourally at run time): 'binary' = every (old,new) over {0,1} up to a length bound; 'pattern' = every equality pattern between old and new for every new length up to ~1.5 (8/2) or 3 (4/1) windows and every old length in {0..n, n+1, n+window+1}, new bytes position-dependent; each pair x every way to cut new into <=3 writes (cut positions 0..n, repeated positions = empty writes) x every tagging of the cuts with {nothing, Flush, Flush+resume in a new session from ReadOffset/OverlayOffset, the same after the abandoned session went on writing stale bytes}. 'runs' = two-run contents 0^a 1^(L-a) of 40 bytes (longer than any reader buffer) against the same runs with the border moved by -2..3 and the length changed by -1..1, one tagged cut anywhere or two tagged cuts the first within two windows. Full scale (window/threshold detected behaviourally): old/new built from <=3-4 alternating equal/differing runs with lengths in {1,T-1,T,T+1,2T,W-T,W,W+1}, tails only in old or only in new, written in chunks of {1,4KiB,32KiB,W,W+1,everything} with flush/resume marks at every write boundary (singles, pairs for the window-sized chunks), partly through real files exactly as the overlay bowl does. Oracle: OverlayPatchContext.Patch onto a copy of old + truncate at the final position == new; an independent decoder/applier of the overlay stream agrees; ReadOffset/OverlayOffset after Flush equal the bytes consumed/produced. Non-trivial = the overlay contains both a SKIP and a FRESH op of non-zero length.",
 		Assumptions: []string{
 			"the reader handed to the writer returns full reads until end of file (bytes.Reader / os.File), as the pools used by the overlay bowl do",
 			"scaled variants rebuild pwr/overlay with only overlayBufSize and overlaySameThreshold changed",
